@@ -625,6 +625,8 @@ def check_C11(chk):
     out = chk.run_harness(bins["dbg-native"], ["replay", "--kind", "ms", "--cases", msp], st)
     if out:
         chk.add_replay(out, st)
+    # conversions at the top of the range: sparse <-> run-length with lengths up to usize::MAX, validated against the U64 semantics
+    stage_trace(chk, bins, "huge", "TraceBV64", extra_args=("--only", "conv"))
     # conversions at every state of the lifecycle machine: sources that were mutated, converted, given supports before
     stage_life(chk, bins, "C11", ["to:plain>plain", "to:plain>sparse", "to:plain>rl", "to:sparse>", "to:rl>"], ops='{"mut", "to", "enable"}',
                maxlen=3 if chk.thorough else 2, scales=(1, 3, 64, 65), big_scales=(130, 1100), big_stride=5 if chk.thorough else 13)
